@@ -41,13 +41,13 @@ def gen_tree(rng, depth, tier):
             return {"k": "const", "m": rnd_m(rng)}
         if k < 0.65:
             deg = int(rng.integers(0, 3))
-            style = str(rng.choice(["func", "str", "array0", "array1", "func_args"]))
+            style = str(rng.choice(["func", "str", "array0", "array1", "func_args", "func_kwonly", "func_dict"]))
             c = [[int(a), int(b)] for a, b in rng.integers(-2, 3, size=(deg + 1, 2))]
             if style == "array0" or style == "array1":
                 c = c[:2]
             return {"k": "evo", "m": rnd_m(rng), "c": c, "style": style,
                     "grid": "u" if style == "array0" else str(rng.choice(["u", "a", "b", "c"]))}
-        return {"k": "func", "a": rnd_m(rng), "b": rnd_m(rng), "style": str(rng.choice(["plain", "args", "shared", "shared"]))}
+        return {"k": "func", "a": rnd_m(rng), "b": rnd_m(rng), "style": str(rng.choice(["plain", "args", "shared", "shared", "kwonly", "dictargs"]))}
     if rng.random() < 0.12:
         # several terms on the same operator (merged by compress), sampled on different grids
         m = rnd_m(rng)
@@ -126,6 +126,14 @@ def build_real(node):
             return qutip.QobjEvo([[q, lambda t, c=c: poly(c, t)]])
         if st == "func_args":
             return qutip.QobjEvo([[q, lambda t, w, c=c: w * poly(c, t)]], args={"w": 1})
+        if st == "func_kwonly":
+            def f_kw(t, *, w=0):            # keyword-only parameter whose default is not the value in force
+                return w * poly(c, t)
+            return qutip.QobjEvo([[q, f_kw]], args={"w": 1})
+        if st == "func_dict":
+            def f_dict(t, args):
+                return args["w"] * poly(c, t)
+            return qutip.QobjEvo([[q, f_dict]], args={"w": 1})
         if st == "str":
             expr = " + ".join(f"({a}+{b}j)*t**{k}" for k, (a, b) in enumerate(c))
             return qutip.QobjEvo([[q, expr]])
@@ -145,6 +153,14 @@ def build_real(node):
             return qutip.QobjEvo(lambda t, w, a=a, b=b: a + (w * t) * b, args={"w": 1})
         if node["style"] == "shared":
             return qutip.QobjEvo(shared_f, args={"w": 1, "a": a, "b": b})
+        if node["style"] == "kwonly":
+            def op_kw(t, *, w=0):
+                return a + (w * t) * b
+            return qutip.QobjEvo(op_kw, args={"w": 1})
+        if node["style"] == "dictargs":
+            def op_dict(t, args):
+                return a + (args["w"] * t) * b
+            return qutip.QobjEvo(op_dict, args={"w": 1})
         return qutip.QobjEvo(lambda t, a=a, b=b: a + t * b)
     if k in ("add", "sub", "mul"):
         x, y = build_real(node["x"]), build_real(node["y"])
